@@ -992,7 +992,12 @@ def split_goal(goal, extra=None):
 class Engine:
     def __init__(self, contracts, spec_table, lows=None, override=None):
         from . import lower_pyx
-        self.lows = lows if lows is not None else lower_pyx.lower_all()
+        # files that cannot be lowered do not stop the others: relpath -> message (reported by the
+        # drivers as UNDECIDED obligations, see kern_run.KernRun.unlowered / kern_diff)
+        self.unlowered = {}
+        if lows is None:
+            lows, self.unlowered = lower_pyx.lower_all_contained()
+        self.lows = lows
         self.specs = KS.Specs(spec_table)
         self.spec_table = spec_table
         self.contracts = contracts
@@ -1011,10 +1016,16 @@ class Engine:
 
     @staticmethod
     def id_stem(low, fname):
-        return "%s.%s" % (low.short[:-4].replace("/", "."), fname)
+        """low: Lowered or the relpath of a kernel file (usable when the file could not be lowered)"""
+        from . import lower_pyx
+        short = lower_pyx.short_of(low) if isinstance(low, str) else low.short
+        return "%s.%s" % (short[:-4].replace("/", "."), fname)
 
     def generate(self, relpath, fname):
         low = self.lows[relpath]
+        if fname in low.failed:
+            from . import lower_pyx
+            raise lower_pyx.LoweringError(low.failed[fname])
         key = self.contract_key(low, fname)
         ckey = self.override.get(key, key)
         c = self.contracts.get(ckey)
